@@ -37,6 +37,10 @@ from kawin.precipitation.parameters.LebedevNodes import loadPoints
 
 
 #Utility functions for tensors
+#Number of times each component of a 6-vector (11, 22, 33, 23, 13, 12) appears in the symmetric 3x3 tensor
+#Needed when a contraction over a pair of tensor indices is written as a product of 6x6 matrices and 6-vectors
+VOIGT_SHEAR_FACTOR = np.array([1, 1, 1, 2, 2, 2])
+
 def convert2To4rankTensor(c2):
     '''
     Converts 2nd rank elastic tensor to 4th rank
@@ -92,9 +96,13 @@ def invert4rankTensor(c4):
     Inverts 4th rank tensor to give stiffness tensor
 
     This is done by converting to 2nd rank, inverting, then converting back to 4th rank
+
+    The double contraction over a (minor symmetric) index pair counts each shear
+    component twice, which the 6x6 representation has to account for, i.e.
+    inv_ijmn * c4_mnkl = 0.5 * (d_ik*d_jl + d_il*d_jk)
     '''
     c2 = convert4To2rankTensor(c4)
-    return convert2To4rankTensor(np.linalg.inv(c2))
+    return convert2To4rankTensor(np.linalg.inv(c2 * VOIGT_SHEAR_FACTOR) / VOIGT_SHEAR_FACTOR)
 
 def convertVecTo2rankTensor(v):
     '''
@@ -571,10 +579,10 @@ class EllipsoidalEnergyDescription(StrainEnergyDescriptionBase):
         eigenstrain = self.params.eigenstrain
 
         V = 4*np.pi/3 * np.prod(radius)
-        S = convert4To2rankTensor(self.Sijmn(self.Dijkl(radius, c4)))
+        S = convert4To2rankTensor(self.Sijmn(self.Dijkl(radius, c4))) * VOIGT_SHEAR_FACTOR
         eigFlat = convert2rankToVec(eigenstrain)
-        multTerm = np.matmul(c2, S - np.eye(6))
-        return -0.5 * V * np.matmul(eigFlat, np.matmul(multTerm, eigFlat))
+        multTerm = np.matmul(c2 * VOIGT_SHEAR_FACTOR, S - np.eye(6))
+        return -0.5 * V * np.matmul(eigFlat * VOIGT_SHEAR_FACTOR, np.matmul(multTerm, eigFlat))
 
     def strainEnergyBohm(self, radius):
         '''
@@ -597,18 +605,18 @@ class EllipsoidalEnergyDescription(StrainEnergyDescriptionBase):
         Strain energy of particle for when matrix and precipitate phases have different elastic tensors using 2nd rank tensors
         '''
         cM4 = self.params.cMatrix_4th
-        cM2 = self.params.cMatrix_2nd
+        cM2 = self.params.cMatrix_2nd * VOIGT_SHEAR_FACTOR
         eigenstrain = self.params.eigenstrain
-        cP2 = self.params.cPrec_2nd
+        cP2 = self.params.cPrec_2nd * VOIGT_SHEAR_FACTOR
 
         V = 4*np.pi/3 * np.prod(radius)
-        S = convert4To2rankTensor(self.Sijmn(self.Dijkl(radius, cM4)))
+        S = convert4To2rankTensor(self.Sijmn(self.Dijkl(radius, cM4))) * VOIGT_SHEAR_FACTOR
         eigFlat = convert2rankToVec(eigenstrain)
         invTerm = np.linalg.inv(np.matmul(cP2 - cM2, S) + cM2)
         multTerm = np.matmul(invTerm, cP2)
         stressC = np.matmul(cM2, np.matmul(np.matmul(S, multTerm), eigFlat))
         stress0 = np.matmul(cM2, np.matmul(multTerm, eigFlat))
-        return -0.5 * V * np.matmul(eigFlat, stressC - stress0)
+        return -0.5 * V * np.matmul(eigFlat * VOIGT_SHEAR_FACTOR, stressC - stress0)
 
     def computeStrainEnergy(self, radius):
         return self.strainEnergyBohm(radius)
